@@ -110,7 +110,14 @@ class CFG:
         p = self.pos.get(nid)
         if p:
             return p
-        n = self.fn.nodes.get(nid)
+        n0 = self.fn.nodes.get(nid)
+        # compound statements are not CFG elements: use their first element
+        if n0 is not None and n0["k"] in ("CompoundStmt", "IfStmt", "ForStmt", "WhileStmt", "DoStmt", "CXXForRangeStmt", "SwitchStmt", "CaseStmt", "DefaultStmt"):
+            for x in walk(n0):
+                p = self.pos.get(x["i"])
+                if p:
+                    return p
+        n = n0
         while n is not None:
             p = self.pos.get(n["i"])
             if p:
